@@ -137,11 +137,17 @@ def run(prog, tier):
     from .gpm import routing_obligations
     ax = ax + [o for o in routing_obligations(prog, "GpRegressor", "hyperparameter-routing", REL)
                if o.construct.endswith(".gradient") or o.construct.endswith(".spatial_derivatives")]
+    # a derivative prediction reads the regressor's state and changes none of it: everything a method updates in place is its
+    # own scratch, not an object kept on the regressor / handed back by a mean or kernel method from its state or its arguments
+    from .common import scratch_owned_obligations
+    ax = ax + scratch_owned_obligations(prog, "scratch-owned", [prog.cls("GpRegressor")],
+                                        "a derivative prediction changes an array the regressor keeps (hyper-parameters, data, "
+                                        "factors): every later prediction is computed from the changed state")
     try:
         obs, floors, meta = _run_main(prog, tier)
     except AnalysisError:
         if any(not o.ok for o in ax):
-            return ax, {}, {"explanation": "axes scrambled in a derivative predictor; remaining rules not evaluated"}
+            return ax, {}, {"explanation": "axes scrambled in / stored state changed by a derivative predictor; remaining rules not evaluated"}
         raise
     return ax + obs, floors, meta
 
